@@ -12,7 +12,9 @@ ANY input, well-formed or not (`construct_wf`).  The in-place operations (insert
 from them: eraseRegion without shrinking, union, difference) preserve well-formedness (C07/C10/C11) — with no
 separation hypothesis: they only delete members of the tier, which `deleteEntry` (exact match first) removes exactly;
 a `deleteEntry` of an absent entry removes at most one entry, which keeps a well-formed tier well-formed.
-`reachable_wf` lifts this to operation sequences of any length.
+`reachable_wf` lifts this to operation sequences of any length.  `eraseRegion` has no side condition (`OpOk` is `True`
+for it) since fix A28: shrinking clips the region to the span, so the result is well-formed for every region
+(`C07.erase_wf_any`; before the fix an entry-less tier could come back ending before its start).
 -/
 namespace C05
 
@@ -170,7 +172,7 @@ separation condition on the tier's entries: `insert`, `delete`, `erase`, `union`
 well-formed tier, however close its entries are) -/
 def OpOk (t : ITier Int) : TOp → Prop
   | .crop _ _ _ _ => True
-  | .erase a b _ _ => a < b → (t.lo ≤ a ∧ b ≤ t.hi)
+  | .erase _ _ _ _ => True
   | .space s d _ => 0 < d ∧ t.lo ≤ s
   | .shift _ _ => True
   | .insert x _ => pyStrip x.l = x.l
@@ -196,31 +198,7 @@ theorem step_wf (t : ITier Int) (hwf : t.WF) (op : TOp) (hop : OpOk t op) (t' : 
     · rw [C06.crop_rejects t a b m r (by omega)] at h; cases h
   | erase a b m sh =>
     simp only [stepT] at h
-    by_cases hab : a < b
-    · obtain ⟨hlo, hhi⟩ := hop hab
-      by_cases hm : m = .error
-      · subst hm
-        -- error mode: either CollisionError or (nothing overlaps) an unchanged / merely shifted tier
-        rw [C07.erase_unfold t hwf a b hab .error sh] at h
-        cases hf : t.es.filter (ov a b) with
-        | nil =>
-          simp only [eraseCore, hf, List.head?_nil, bind, Except.bind, pure, Except.pure] at h
-          cases sh with
-          | false => simp only [Bool.false_eq_true, if_false, Except.ok.injEq] at h; subst h; exact hwf
-          | true =>
-            simp only [if_true, shrinkStep] at h
-            exact new_wf t _ _ _ _ (by simp only [Option.getD_none, Option.getD_some, shiftBack]; have := hwf.span; omega) t' h
-        | cons y ys =>
-          obtain ⟨g, hg⟩ : ∃ g, (y :: ys).getLast? = some g := ⟨_, List.getLast?_eq_some_getLast (by simp)⟩
-          simp [eraseCore, hf, hg, bind, Except.bind, throw, throwThe, MonadExceptOf.throw] at h
-      · cases sh with
-        | false =>
-          obtain ⟨t'', e, w⟩ := C07.erase_noshrink t hwf a b hab m hm
-          rw [h] at e; cases e; exact w.wf
-        | true =>
-          obtain ⟨u, t'', _, e, w, _⟩ := C07.erase_shrink t hwf a b hab hlo hhi m hm
-          rw [h] at e; cases e; exact w
-    · rw [C07.erase_rejects t a b m sh (by omega)] at h; cases h
+    exact C07.erase_wf_any t hwf a b m sh t' h
   | space s d m =>
     simp only [stepT] at h
     obtain ⟨hd, hlo⟩ := hop
